@@ -142,8 +142,35 @@ Definition check_handle (ts : list N) : list N :=
   | _ => v_bad
   end.
 
+(* kind 30 (end-to-end rig, tools/rig.py scenario `dhcpflow`): one message sent to the REAL binary over a
+   veth pair, the reply frame captured (or none), the lease listing read over HTTP before and after.
+     [30; msgtype; serverid class (0 absent, 1 this server's, 2 foreign); got_reply;
+          echo_ok    (BOOTREPLY echoing xid, htype, hlen, chaddr, giaddr, flags);
+          sid_ok     (option 54 present, the server's address on that link, = the IP source of the frame);
+          listing_changed (a row other than the one of the reply's yiaddr differs; any row when there is no reply);
+          row_ok     (the listing row of yiaddr carries the requesting client's identifier)]
+   This is the glue of DhcpService::recvdhcp (server address from the interface, reply framing) and the
+   HTTP listing, which the function-level cases of kind 1 do not reach.  Independent of kind 1. *)
+Definition check_rig_flow (ts : list N) : list N :=
+  match ts with
+  | [msgtype; sidc; got; echo; sid; changed; rowok] =>
+    let for_us := (msgtype =? 1) || ((msgtype =? 3) && negb (sidc =? 2)) in
+    if negb (got =? 0) then
+      if negb for_us then v_viol 1
+      else if negb (changed =? 0) then v_viol 3
+      else if rowok =? 0 then v_viol 4
+      else if (echo =? 0) || (sid =? 0) then v_viol 5
+      else v_ok (if msgtype =? 1 then 31 else if sidc =? 0 then 32 else 33)
+    else
+      if negb (changed =? 0) then v_viol 2
+      else if for_us then v_diff [0]                     (* a message meant for this server was not answered *)
+      else v_ok (if msgtype =? 3 then 34 else 35)
+  | _ => v_bad
+  end.
+
 Definition check_C13 (ts : list N) : list N :=
   match ts with
   | 1 :: r => check_handle r
+  | 30 :: r => check_rig_flow r
   | _ => v_bad
   end.
